@@ -267,9 +267,41 @@ open EasyFEAVerif
                  "/-- `_Simu.Calc_Reaction`: the terms summed on the constrained rows, per time scheme -/\n"
                  "def reactionTerms : List (String × List String) := [\n  "
                  + ",\n  ".join(f'("{m}", [' + ", ".join(f'"{t}"' for t in terms[m]) + "])" for m in members) + "]\n\n")
+    helpers, callers = coef_table(repo)
+    parts.append("/-- the Kelvin-Mandel factor of the shear components: default of `coef` in the two helpers of Models/_utils.py, and the `coef=` argument each simulation passes -/\n"
+                 "def coefDefaults : List (String × String) := [" + ", ".join(f'("{a}", "{b}")' for a, b in helpers) + "]\n"
+                 "def coefPassed : List (String × String) := [" + ", ".join(f'("{a}", "{b}")' for a, b in callers) + "]\n\n")
     parts.append("end EasyFEAVerif.Gen.C16\n")
     _write_if_changed(os.path.join(outdir, "Results.lean"), "".join(parts))
     return dict(simulations=list(kin.keys()) + ["PhaseField.__indexResult", "Beam._indexResult"], names=KIN, beam_names=len(beam))
+
+
+def coef_table(repo):
+    """the factor by which the shear components of a Kelvin-Mandel strain / stress vector are divided: the helpers' default and what every caller passes"""
+    utils = ast.parse(open(os.path.join(repo, "EasyFEA", "Models", "_utils.py"), encoding="utf-8").read())
+    helpers = []
+    for name in ("__Result_in_Strain_or_Stress_field", "Result_strain_or_stress_field_e"):
+        f = next((n for n in utils.body if isinstance(n, ast.FunctionDef) and n.name == name), None)
+        if f is None:
+            raise Refuse(f"{name} not found")
+        names = [a.arg for a in f.args.args]
+        if "coef" not in names:
+            raise Refuse(f"{name} has no parameter coef")
+        k = names.index("coef") - (len(names) - len(f.args.defaults))
+        if k < 0:
+            raise Refuse(f"{name}: coef has no default")
+        helpers.append((name, ast.unparse(f.args.defaults[k])))
+    callers = []
+    for cls, fname in (("Elastic", "_elastic.py"), ("HyperElastic", "_hyperelastic.py"), ("PhaseField", "_phasefield.py"), ("InElastic", "_inelastic.py")):
+        tree = ast.parse(open(os.path.join(repo, "EasyFEA", "Simulations", fname), encoding="utf-8").read())
+        calls = [n for n in ast.walk(tree) if isinstance(n, ast.Call) and ast.unparse(n.func) == "Result_strain_or_stress_field_e"]
+        if len(calls) != 1:
+            raise Refuse(f"{cls}: {len(calls)} calls of Result_strain_or_stress_field_e")
+        kw = {k.arg: ast.unparse(k.value) for k in calls[0].keywords}
+        if calls[0].args or "coef" not in kw:
+            raise Refuse(f"{cls}.Result does not pass coef= to Result_strain_or_stress_field_e (keywords {sorted(kw)}, {len(calls[0].args)} positional)")
+        callers.append((cls, kw["coef"]))
+    return helpers, callers
 
 
 if __name__ == "__main__":
